@@ -716,6 +716,7 @@ func setterSequences() {
 				var out []byte
 				var err error
 				var txt string
+				fieldsBefore := fmt.Sprintf("Time=%#x ClockSeq=%#x NodeID=%x", u.Time, u.ClockSeq, u.NodeID)
 				p, pv, st := mon.Guard(func() {
 					if step%2 == 0 {
 						txt = u.String()
@@ -726,6 +727,9 @@ func setterSequences() {
 					}
 				})
 				ev(2)
+				if fieldsAfter := fmt.Sprintf("Time=%#x ClockSeq=%#x NodeID=%x", u.Time, u.ClockSeq, u.NodeID); !p && fieldsAfter != fieldsBefore {
+					r.Violation("uuid_v1.setters:fields-changed-by-formatting", fmt.Sprintf("after %s, String()/Marshal() changed the caller-set fields from %s to %s", trace[len(trace)-1], fieldsBefore, fieldsAfter), cs)
+				}
 				switch {
 				case p:
 					r.Violation("uuid_v1.setters:panic", fmt.Sprintf("panic %v at %s", pv, mon.TopLibFrame(st)), cs)
@@ -783,6 +787,7 @@ func setterSequences() {
 				var out []byte
 				var err error
 				var txt string
+				fieldsBefore := fmt.Sprintf("Time=%#x Clock=%#x LocalDomain=%#x LocalDomainNumber=%#x NodeID=%x", u.Time, u.Clock, u.LocalDomain, u.LocalDomainNumber, u.NodeID)
 				p, pv, st := mon.Guard(func() {
 					if step%2 == 0 {
 						txt = u.String()
@@ -793,6 +798,9 @@ func setterSequences() {
 					}
 				})
 				ev(2)
+				if fieldsAfter := fmt.Sprintf("Time=%#x Clock=%#x LocalDomain=%#x LocalDomainNumber=%#x NodeID=%x", u.Time, u.Clock, u.LocalDomain, u.LocalDomainNumber, u.NodeID); !p && fieldsAfter != fieldsBefore {
+					r.Violation("uuid_v2.setters:fields-changed-by-formatting", fmt.Sprintf("after %s, String()/Marshal() changed the caller-set fields from %s to %s", trace[len(trace)-1], fieldsBefore, fieldsAfter), cs)
+				}
 				switch {
 				case p:
 					r.Violation("uuid_v2.setters:panic", fmt.Sprintf("panic %v at %s", pv, mon.TopLibFrame(st)), cs)
